@@ -123,31 +123,38 @@ Proof. exact direction_sound. Qed.
 Print Assumptions C13_sound.
 
 (* the letter of the property ("a predicate that occurs nowhere in the task or in earlier outline
-   entries") holds outside the known class F12 (a definition whose predicate occurs in an EARLIER
-   LEMMA): [seen] starts as the taken predicates, [lp] as the empty list *)
-Theorem C13_fresh_outside_F12 :
-  forall (m : placeholders) (l : specification) (taken : list pred) (o0 : proof_outline) ws o ws' seen lp,
+   entries"): every accepted outline is strictly fresh.  [seen] starts as (a subset of) the taken
+   predicates, i.e. the predicates of the task.  Unconditional since the repair of finding F12
+   (predicates of accepted lemmas count as taken). *)
+Theorem C13_fresh :
+  forall (m : placeholders) (l : specification) (taken : list pred) (o0 : proof_outline) ws o ws' seen,
     from_specification_loop l taken m o0 ws = Ok (o, ws') ->
-    F12_free m l lp -> (forall q, In q seen -> In q taken \/ In q lp) ->
+    (forall q, In q seen -> In q taken) ->
     strictly_fresh m l seen.
 Proof. exact accepted_strictly_fresh. Qed.
-Print Assumptions C13_fresh_outside_F12.
+Print Assumptions C13_fresh.
 
-(* witness of the known class F12:  lemma: forall X (aux(X) -> in(X)).  definition: forall X (aux(X) <-> in(X)).
-   is accepted, is in the class, and is not strictly fresh *)
+(* regression case of the repaired finding F12:
+     lemma: forall X (aux(X) -> in(X)).  definition: forall X (aux(X) <-> in(X)).
+   is in the former class (not F12_free), is not strictly fresh, and is now REFUSED with
+   TakenPredicate (it was accepted before the repair); with the definition first it is accepted. *)
 Example F12_witness :
   let X := mkvar "X" SGeneral in
   let lemma := mkannot RLemma DUniversal "l"
                  (FQ QForall [X] (FBin CImp (FAtomic (AAtom "aux" [GVar "X"])) (FAtomic (AAtom "in" [GVar "X"])))) in
   let def := mkannot RDefinition DUniversal "d"
                (FQ QForall [X] (FBin CIff (FAtomic (AAtom "aux" [GVar "X"])) (FAtomic (AAtom "in" [GVar "X"])))) in
-  (exists o ws, from_specification [lemma; def] [mkpred "in" 1] [] = Ok (o, ws)) /\
-  ~ F12_free [] [lemma; def] [] /\ ~ strictly_fresh [] [lemma; def] [mkpred "in" 1].
+  from_specification [lemma; def] [mkpred "in" 1] [] = Err TakenPredicate /\
+  ~ F12_free [] [lemma; def] [] /\ ~ strictly_fresh [] [lemma; def] [mkpred "in" 1] /\
+  (exists o ws, from_specification [def; lemma] [mkpred "in" 1] [] = Ok (o, ws)) /\
+  strictly_fresh [] [def; lemma] [mkpred "in" 1].
 Proof.
-  cbv zeta. split; [|split].
-  - eexists. eexists. vm_compute. reflexivity.
+  cbv zeta. split; [|split; [|split; [|split]]].
+  - vm_compute. reflexivity.
   - cbn. intros [H _]. apply (H (mkpred "aux" 1) eq_refl). cbn. auto.
   - cbn. intros [_ [H _]]. apply (H (mkpred "aux" 1) eq_refl). cbn. auto.
+  - eexists. eexists. vm_compute. reflexivity.
+  - cbn. repeat split; auto. intros p [= <-] [H|[]]. discriminate.
 Qed.
 
 (* non-vacuity of C13_induction's premise shape: the base/step construction on a concrete lemma *)
